@@ -6,10 +6,18 @@
 #              unsafe code / C libraries through Rust
 #   memcheck = valgrind memcheck on the plain release binary (covers the C side: zstd, croaring), one thread
 #   miri     = `cargo +nightly miri run` of the pure-Rust companion binary <bin>_miri in package v_miri
+# Where the unsafe code / C boundary is: anda_db/src/storage.rs `try_decompress` (Vec::set_len after zstd; every
+# get of a compressed object: C01 workloads with compress_level 3, C13 storage sections) and the aes-gcm chunk
+# decryption of EncryptedStore incl. ranged reads (C09 tamper/leak; C01 "Enc" backends). C01 has a single section,
+# its binary ignores --only (the name is only a label there). The second unsafe block of storage.rs
+# (BoundedReader: ReadBuf::assume_init) is reachable only through Storage::stream_reader, which neither the
+# repository's non-test code nor any harness binary calls: not covered by any pass.
 san_passes() {
   case "$1" in
+    C01) echo "asan:workloads:45 memcheck:workloads:60" ;;
     C05) echo "tsan:stress:120" ;;
     C07) echo "tsan:mt:120" ;;
+    C09) echo "asan:tamper,leak:60 memcheck:tamper:60" ;;
     C10) echo "tsan:stress,sched:120 miri:-:0" ;;
     C11) echo "tsan:stress,sched:120 miri:-:0" ;;
     C12) echo "tsan:stress:120" ;;
